@@ -529,6 +529,13 @@ func (e *c12Env) runInput(c *vlib.Case, in *c12Input) {
 
 		ew := &c12ErrWriter{}
 		p := NewParser(ew, tree)
+		if len(tblBytes)%8 == 3 {
+			// a parser without an error stream of its own: kfmt sends what is written to a nil writer to the
+			// early log, so nil is a configuration like any other, and "malformed input yields an error,
+			// never a crash" holds for it as well
+			p = NewParser(nil, tree)
+			run.Count("tables_parsed_with_a_nil_error_writer", 1)
+		}
 		var perr *kernel.Error
 		c12Arm("ParseAML", limit)
 		pv, st := vlib.Protect(func() { perr = p.ParseAML(handle, "DSDT", tbl.header()) })
